@@ -136,3 +136,26 @@ V("C40-epoch-no-due-test","C40",TM,"	if et.nextTickAt <= curr {\n		for _, h := r
 V("C40-update-clears-done","C40",TM,"	if et.done {\n		return\n	}","	if et.done {\n		et.done = curr < et.nextTickAt\n		return\n	}",rule="C40.R3")
 V("C40-early-return-after-epoch","C40",TM,"		et.done = true\n	}\n	for _, dh := range et.deltaHandlers {","		et.done = true\n		return\n	}\n	for _, dh := range et.deltaHandlers {",rule="C40.R5")
 V("C40-silent-refactor","C40",TM,"		if !dh.done && dh.nextTickAt <= curr {\n			dh.tick()\n			dh.done = true\n		}","		if dh.done || dh.nextTickAt > curr {\n			continue\n		}\n		dh.tick()\n		dh.done = true",expect="silent")
+
+MB="pkg/local_object_storage/metabase/"
+V("C07-tombstone-skips-lock-check-for-children","C07",MB+"put.go","""		if objectLocked(currEpoch, metaCursor, target) {
+			return apistatus.ErrObjectLocked
+		}
+""","""		if targetTypErr == nil && objectLocked(currEpoch, metaCursor, target) {
+			return apistatus.ErrObjectLocked
+		}
+""",rule="C07.R1")
+V("C07-lock-of-tombstoned-accepted","C07",MB+"put.go","""		if st == statusTombstoned {
+			return logicerr.Wrap(apistatus.ErrObjectAlreadyRemoved)
+		}
+""","""		if st == statusTombstoned && targetTypErr == nil {
+			return logicerr.Wrap(apistatus.ErrObjectAlreadyRemoved)
+		}
+""",rule="C07.R1")
+V("C07-lock-target-tombstonable","C07",MB+"put.go","			if targetTyp == object.TypeLock {\n				return ErrLockObjectRemoval\n			}","			if targetTyp == object.TypeLock && currEpoch == 0 {\n				return ErrLockObjectRemoval\n			}",rule="C07.R1")
+V("C07-status-garbage-ignores-lock","C07",MB+"exists.go","	if garbageStatus != statusAvailable && objectLocked(currEpoch, metaCursor, oID) {","	if garbageStatus == statusTombstoned && objectLocked(currEpoch, metaCursor, oID) {",rule="C07.R2")
+V("C07-iterate-expired-yields-locked","C07",MB+"iterators.go","			if objectLocked(curEpoch, curForLocked, id) {\n				expKey, _ = cur.Next()\n				continue\n			}","			if objectLocked(curEpoch, curForLocked, id) && expEpoch+1 == curEpoch {\n				expKey, _ = cur.Next()\n				continue\n			}",rule="C07.R2")
+V("C07-removed-lock-still-counts","C07",MB+"lock.go","	return inGarbage(metaCursor, lockID) == statusAvailable","	return inGarbage(metaCursor, lockID) != statusTombstoned",rule="C07.R5")
+V("C07-expired-lock-ends-search","C07",MB+"lock.go","			if currEpoch > 0 && isExpired(cur, associateID, currEpoch) {\n				continue\n			}","			if currEpoch > 0 && isExpired(cur, associateID, currEpoch) {\n				break\n			}",rule="C07.R5")
+V("C07-engine-deletes-locked","C07","pkg/local_object_storage/engine/inhume.go","		} else if locked {\n			e.log.Warn(\"skip an expired object with lock\",\n				zap.Stringer(\"addr\", addr))\n			continue\n		}","		} else if locked {\n			e.log.Warn(\"skip an expired object with lock\",\n				zap.Stringer(\"addr\", addr))\n		}",rule="C07.R3")
+V("C07-gc-deletes-expired-regular","C07","pkg/local_object_storage/shard/gc.go","		switch typ {\n		case object.TypeTombstone:","		switch typ {\n		case object.TypeTombstone, object.TypeLink:",rule="C07.R4")
